@@ -157,3 +157,231 @@ Proof.
   exact ex_tie_block_leaving.
 Qed.
 Print Assumptions C16_examples.
+
+(* ====================================================================================
+   Composition (Sched/TimeoutCompose.v): the interruptor fires, the NEXT handle run is the target's
+   step, the token is delivered at its suspension point, an un-caught token reaches the exit of
+   its block which raises TimeoutError and deactivates the block - all in that one handle run.
+
+   Additional vocabulary:
+     texit b rest cur k     the continuation denote gives the body of `async with task_timeout(d)`
+                            (block b): call __aexit__ (OTimeoutExit b <how the body ended>), then
+                            continue with texit_k: what leaves the block goes to k
+     enter_state s t d      s after __aenter__: timer scheduled, new active block for task t
+     sdo_k rest env cur k   continuation of a plain awaited call: an exception goes to k
+     stry_k ...             continuation denote gives the body of a try/except/finally
+     running_state s t      the state in which t's code runs (C15) *)
+From Asynkit Require Import Sched.TimeoutCompose.
+
+(* the level, seen from the running code (any continuation k, any state): entering creates an
+   active block for the calling task and runs the body with [texit b]; the block's own token
+   leaves as TimeoutError; any other block's token and every other exception leave unchanged;
+   the block is inactive afterwards in each case (C16_exit_deactivates) *)
+Theorem C16_level_exec :
+  (forall t d body rest env cur k s,
+     exec t (denote (STimeout (Some d) body rest) env cur k) s =
+     exec t (denote body env cur (texit (length (blocks s)) rest cur k)) (enter_state s t d)) /\
+  (forall s t d, let b := length (blocks s) in let s' := enter_state s t d in
+     bactive (getb s' b) = true /\ btask (getb s' b) = t /\ length (blocks s') = S b) /\
+  (forall t b rest cur k env s,
+     exec t (texit b rest cur k env (CExc (ETimeoutInt b))) s =
+     exec t (k env (CExc ETimeout)) (exit_state s b)) /\
+  (forall t b b' rest cur k env s, b' <> b ->
+     exec t (texit b rest cur k env (CExc (ETimeoutInt b'))) s =
+     exec t (k env (CExc (ETimeoutInt b'))) (exit_state s b)) /\
+  (forall t b e rest cur k env s, (forall b', e <> ETimeoutInt b') ->
+     exec t (texit b rest cur k env (CExc e)) s = exec t (k env (CExc e)) (exit_state s b)) /\
+  (forall t b rest cur k env s,
+     exec t (texit b rest cur k env CNormal) s = exec t (denote rest env cur k) (exit_state s b)).
+Proof.
+  split; [exact denote_timeout_some|]. split; [exact enter_state_block|]. split; [exact texit_own|].
+  split; [exact texit_other|]. split; [exact texit_exc|exact texit_normal].
+Qed.
+Print Assumptions C16_level_exec.
+
+(* nested blocks: the OUTER block's token raised inside the INNER block passes the inner exit
+   unchanged - the inner block is deactivated on the way out, the outer one untouched by it -
+   and becomes TimeoutError at the outer exit; both blocks inactive afterwards.  The INNER
+   block's own token becomes TimeoutError at the inner level and passes the outer exit as an
+   ordinary exception *)
+Theorem C16_nested :
+  (forall t bi bo resti resto cur k env s, bi <> bo ->
+     let s' := exit_state (exit_state s bi) bo in
+     exec t (texit bi resti cur (texit bo resto cur k) env (CExc (ETimeoutInt bo))) s =
+     exec t (k env (CExc ETimeout)) s' /\
+     bactive (getb s' bi) = false /\ bactive (getb s' bo) = false /\
+     bactive (getb (exit_state s bi) bi) = false /\
+     getb (exit_state s bi) bo = getb s bo) /\
+  (forall t bi bo resti resto cur k env s,
+     exec t (texit bi resti cur (texit bo resto cur k) env (CExc (ETimeoutInt bi))) s =
+     exec t (k env (CExc ETimeout)) (exit_state (exit_state s bi) bo)).
+Proof. split; [exact texit_nested_outer_token|exact texit_nested_inner_token]. Qed.
+Print Assumptions C16_nested.
+
+(* C16_fires_and_raises (list ready queue).  Block b is active when its interruptor's attempt i
+   runs, task_throw accepts the token for the block's task t, no cancel() is pending on t, t is
+   suspended with library frames frs and user continuation k, where
+     - the frames let the exception through, transforming the state by fr
+       (e.g. inside asyncio.sleep: frames [InFut f; InSleepTimer h], fr = cancel the timer),
+     - the body does not swallow the token: resumed with it, k reaches the exit call of block b
+       with the token (state transformed by bd: inner exits, handlers that log and re-raise ...).
+   Then: (i) the interruptor has thrown, moved the target to position 0 and sleeps; the next
+   handle run is t's step; (ii) t is resumed with the token itself; (iii) the exit of b raises
+   TimeoutError and deactivates b; the whole of it IS that one run_one: no other task runs
+   between the interruptor's attempt and TimeoutError leaving block b *)
+Theorem C16_fires_and_raises :
+  forall fuel s b i l s1 v frs k kx (fr bd : st -> st),
+  ready s = RList l -> bactive (getb s b) = true -> i < 3 ->
+  let t := btask (getb s b) in
+  let tok := ETimeoutInt b in
+  let hn := length (handles s) in
+  task_throw s t tok = (s1, RVal v) ->
+  tmustc (gett s t) = false -> tcont_ (gett s t) = TSusp frs k ->
+  (forall s0, resume_stack t frs (RExc tok) s0 = (fr s0, LDone (RExc tok))) ->
+  (forall s0, exec t (k (RExc tok)) s0 = exec t (Call (OTimeoutExit b (RExc tok)) kx) (bd s0)) ->
+  exists l',
+    let sI := s1 <| ready := RList (hn :: l') |> in
+    let s3 := s1 <| ready := RList l' |> in
+    let s5 := bd (fr (running_state s3 t)) in
+    interruptor (S fuel) s b i = (sI, LSusp YNone [InSleep0; InIntr b i 0]) /\
+    run_one sI = step_task t (Some tok) s3 /\
+    delivered_exn s3 t tok = tok /\
+    lib_call t (OTimeoutExit b (RExc tok)) s5 = (exit_state s5 b, LDone (RExc ETimeout)) /\
+    bactive (getb (exit_state s5 b) b) = false /\
+    run_one sI = (let '(s6, o) := exec t (kx (RExc ETimeout)) (exit_state s5 b) in
+                  finish_step t s6 o <| current := None |>).
+Proof. exact fires_and_raises. Qed.
+Print Assumptions C16_fires_and_raises.
+
+(* the same for ANY state whose next handle is the target's step carrying the token - in
+   particular the state after the interruptor task's own step has ended: Task.__step of the
+   interruptor appends its handle behind, keeps the head, the target's entry and the blocks *)
+Theorem C16_token_step_raises :
+  (forall s2 b t hn rest frs k kx (fr bd : st -> st),
+     let tok := ETimeoutInt b in
+     ready s2 = RList (hn :: rest) -> geth s2 hn = mkH (HStep t (Some tok)) false ->
+     tdone s2 t = false -> tmustc (gett s2 t) = false -> tcont_ (gett s2 t) = TSusp frs k ->
+     (forall s0, resume_stack t frs (RExc tok) s0 = (fr s0, LDone (RExc tok))) ->
+     (forall s0, exec t (k (RExc tok)) s0 = exec t (Call (OTimeoutExit b (RExc tok)) kx) (bd s0)) ->
+     let s3 := s2 <| ready := RList rest |> in
+     let s5 := bd (fr (running_state s3 t)) in
+     run_one s2 = step_task t (Some tok) s3 /\
+     delivered_exn s3 t tok = tok /\
+     lib_call t (OTimeoutExit b (RExc tok)) s5 = (exit_state s5 b, LDone (RExc ETimeout)) /\
+     bactive (getb (exit_state s5 b) b) = false /\
+     run_one s2 = (let '(s6, o) := exec t (kx (RExc ETimeout)) (exit_state s5 b) in
+                   finish_step t s6 o <| current := None |>)) /\
+  (forall sI ti t hn l' frsI kI,
+     ready sI = RList (hn :: l') -> hn < length (handles sI) -> ti <> t ->
+     let sF := finish_step ti sI (OYield YNone frsI kI) <| current := None |> in
+     ready sF = RList (hn :: l' ++ [length (handles sI)]) /\ geth sF hn = geth sI hn /\
+     geth sF (length (handles sI)) = mkH (HStep ti None) false /\
+     gett sF t = gett sI t /\ tdone sF t = tdone sI t /\ blocks sF = blocks sI /\ futs sF = futs sI).
+Proof. split; [exact token_step_raises|exact interruptor_yield_keeps_head]. Qed.
+Print Assumptions C16_token_step_raises.
+
+(* the typical shape: the task sleeps (or awaits anything by a plain call) directly inside the
+   block: frames of asyncio.sleep, continuation sdo_k ... (texit b ...).  What the code after the
+   block (k0) sees in the next handle run is TimeoutError, with block b inactive and the sleep's
+   timer cancelled *)
+Theorem C16_fires_and_raises_sleep :
+  forall fuel s b i l s1 v f h rest' rest env cur k0,
+  ready s = RList l -> bactive (getb s b) = true -> i < 3 ->
+  let t := btask (getb s b) in
+  let tok := ETimeoutInt b in
+  let hn := length (handles s) in
+  task_throw s t tok = (s1, RVal v) -> tmustc (gett s t) = false ->
+  tcont_ (gett s t) = TSusp [InFut f; InSleepTimer h] (sdo_k rest' env cur (texit b rest cur k0)) ->
+  exists l',
+    let sI := s1 <| ready := RList (hn :: l') |> in
+    let s3 := s1 <| ready := RList l' |> in
+    let s5 := exit_state (cancel_handle (running_state s3 t) h) b in
+    interruptor (S fuel) s b i = (sI, LSusp YNone [InSleep0; InIntr b i 0]) /\
+    bactive (getb s5 b) = false /\
+    run_one sI = (let '(s6, o) := exec t (k0 env (CExc ETimeout)) s5 in
+                  finish_step t s6 o <| current := None |>).
+Proof. exact fires_and_raises_sleep. Qed.
+Print Assumptions C16_fires_and_raises_sleep.
+
+(* non-vacuity of C16_fires_and_raises on the nested example (task_timeout(1) around
+   task_timeout(5) around sleep(10), every level logging what leaves its block), in the state
+   ex_sr inside the first step of the OUTER block's interruptor: all hypotheses hold (the token
+   passes the inner exit - block 1 deactivated -, is logged 903 by the inner handler which
+   re-raises it, and reaches the exit call of block 0), hence the conclusion *)
+Theorem C16_fires_and_raises_example :
+  (ready ex_sr = RList [] /\ bactive (getb ex_sr 0) = true /\ btask (getb ex_sr 0) = 0 /\
+   snd (task_throw ex_sr 0 (ETimeoutInt 0)) = RVal 0 /\ tmustc (gett ex_sr 0) = false /\
+   tcont_ (gett ex_sr 0) = TSusp [InFut 1; InSleepTimer 3] ex_k /\
+   (forall s0, resume_stack 0 [InFut 1; InSleepTimer 3] (RExc (ETimeoutInt 0)) s0 =
+               (cancel_handle s0 3, LDone (RExc (ETimeoutInt 0)))) /\
+   (forall s0, exec 0 (ex_k (RExc (ETimeoutInt 0))) s0 =
+               exec 0 (Call (OTimeoutExit 0 (RExc (ETimeoutInt 0))) ex_kx) (addlog (exit_state s0 1) 903))) /\
+  (exists s1 l',
+    let sI := s1 <| ready := RList (5 :: l') |> in
+    let s3 := s1 <| ready := RList l' |> in
+    let s5 := addlog (exit_state (cancel_handle (running_state s3 0) 3) 1) 903 in
+    task_throw ex_sr 0 (ETimeoutInt 0) = (s1, RVal 0) /\
+    interruptor 4 ex_sr 0 0 = (sI, LSusp YNone [InSleep0; InIntr 0 0 0]) /\
+    bactive (getb (exit_state s5 0) 0) = false /\ bactive (getb (exit_state s5 0) 1) = false /\
+    run_one sI = (let '(s6, o) := exec 0 (ex_kx (RExc ETimeout)) (exit_state s5 0) in
+                  finish_step 0 s6 o <| current := None |>)).
+Proof. split; [exact fires_and_raises_hyps|exact fires_and_raises_ex]. Qed.
+Print Assumptions C16_fires_and_raises_example.
+
+(* C16_example_whole_run: the complete run of that program through do_action (virtual clock):
+   spawn; begin; step (enter both blocks, sleep(10)); clock +1; begin (the outer timer is due);
+   step (trigger: spawns the interruptor); step (interruptor: throw + switch, asleep); step (task
+   0: token delivered, 903 at the inner level, TimeoutError 904 at the outer level, 4 after the
+   blocks, result 0); step (the interruptor resumes, block inactive, ends) *)
+Theorem C16_example_whole_run :
+  let st_after n := run_acts (firstn n ex_nested_acts) in
+  (rq_items (ready (st_after 3)) = [] /\ map bactive (blocks (st_after 3)) = [true; true] /\
+   twaiter (gett (st_after 3) 0) = Some 1) /\
+  (rq_items (ready (st_after 5)) = [1] /\ hcb (geth (st_after 5) 1) = HTrigger 0) /\
+  (rq_items (ready (st_after 6)) = [4] /\ hcb (geth (st_after 6) 4) = HStep 1 None) /\
+  (rq_items (ready (st_after 7)) = [5; 6] /\
+   geth (st_after 7) 5 = mkH (HStep 0 (Some (ETimeoutInt 0))) false /\
+   geth (st_after 7) 6 = mkH (HStep 1 None) false /\
+   events_of (st_after 7) = [] /\ map bactive (blocks (st_after 7)) = [true; true] /\
+   fstate_ (getf (st_after 7) 1) = FPending /\ fcbs (getf (st_after 7) 1) = []) /\
+  (events_of (st_after 8) = [903; 904; 4]%Z /\ map bactive (blocks (st_after 8)) = [false; false] /\
+   fstate_ (getf (st_after 8) (tfut (gett (st_after 8) 0))) = FResult 0 /\
+   map (fun h => hcancelled (geth (st_after 8) h)) [1; 2; 3] = [true; true; true] /\
+   rq_items (ready (st_after 8)) = [6]) /\
+  (rq_items (ready (st_after 9)) = [] /\ events_of (st_after 9) = [903; 904; 4]%Z /\
+   map fstate_ (futs (st_after 9)) = [FResult 0; FPending; FResult 0] /\
+   errors (st_after 9) = []) /\
+  st_after 8 = run_one (st_after 7).
+Proof. exact whole_run. Qed.
+Print Assumptions C16_example_whole_run.
+
+(* the composition for EVERY ready queue in which position 0 is the head of the run order (QNext:
+   the list queue and the priority loop's PosPriorityQueue with boosting off - Props/C15.v,
+   C15_interrupt_queues), under the partition invariant InvC: the interruptor's attempt leaves the
+   target's handle hn = HStep t (Some token) at the head (popleft returns it), and the run_one that
+   pops it resumes the target with the token, which the exit of b turns into TimeoutError *)
+From Asynkit Require Import Sched.PartTables Sched.InterruptNext.
+Theorem C16_fires_and_raises_any_queue :
+  forall qok, QSpec qok -> QNext qok -> forall c fuel s b i s1 v frs k kx (fr bd : st -> st),
+  InvC qok c s -> bactive (getb s b) = true -> i < 3 ->
+  let t := btask (getb s b) in
+  let tok := ETimeoutInt b in
+  let hn := length (handles s) in
+  task_throw s t tok = (s1, RVal v) ->
+  tmustc (gett s t) = false -> tcont_ (gett s t) = TSusp frs k ->
+  (forall s0, resume_stack t frs (RExc tok) s0 = (fr s0, LDone (RExc tok))) ->
+  (forall s0, exec t (k (RExc tok)) s0 = exec t (Call (OTimeoutExit b (RExc tok)) kx) (bd s0)) ->
+  exists sI r'',
+    let s3 := sI <| ready := r'' |> in
+    let s5 := bd (fr (running_state s3 t)) in
+    interruptor (S fuel) s b i = (sI, LSusp YNone [InSleep0; InIntr b i 0]) /\
+    InvC qok c sI /\
+    rq_popleft (ready sI) = Some (hn, r'') /\ geth sI hn = mkH (HStep t (Some tok)) false /\
+    run_one sI = step_task t (Some tok) s3 /\
+    delivered_exn s3 t tok = tok /\
+    lib_call t (OTimeoutExit b (RExc tok)) s5 = (exit_state s5 b, LDone (RExc ETimeout)) /\
+    bactive (getb (exit_state s5 b) b) = false /\
+    run_one sI = (let '(s6, o) := exec t (kx (RExc ETimeout)) (exit_state s5 b) in
+                  finish_step t s6 o <| current := None |>).
+Proof. exact fires_and_raises_gen. Qed.
+Print Assumptions C16_fires_and_raises_any_queue.
